@@ -1,1 +1,11 @@
 import Lmd.Props.C12
+#print axioms Lmd.C12.exEntryTable
+#print axioms Lmd.C12.change_detected
+#print axioms Lmd.C12.no_monotone_counterexample
+#print axioms Lmd.C12.sync_exact
+#print axioms Lmd.C12.sync_empty
+#print axioms Lmd.C12.sync_remove_newest
+#print axioms Lmd.C12.sync_nodup
+#print axioms Lmd.C12.lists_follow_tables
+#print axioms Lmd.C12.lists_follow
+#print axioms Lmd.C12.lists_follow_downtimes
